@@ -555,7 +555,8 @@ class Gen:
         n_steps = self.rng.choice([d for d in range(1, g + 1) if g % d == 0])
         which = self.rng.choice(["smse", "smse", "timestep", "timestep", "normalized"])
         reduce = {"smse": ["mean", None], "timestep": ["mean", "max", None], "normalized": ["mean"]}[which]
-        self.emit({"op": "loss", "a": a, "b": b, "which": which, "reduce": self.rng.choice(reduce), "n_steps": n_steps, "g": self.rng.randrange(len(group(self.D)))})
+        self.emit({"op": "loss", "a": a, "b": b, "which": which, "reduce": self.rng.choice(reduce), "n_steps": n_steps, "g": self.rng.randrange(len(group(self.D))),
+                   "eps": self.rng.choice([None, None, 1e-5, 1e-2, 0.5])})
 
 
 _GROUPS: dict = {}
@@ -1312,7 +1313,7 @@ def _run_real(op, regs, refs_after, D, bump, viol, log):
     return pc
 
 
-def _ref_losses(ra: RefMI, rb: RefMI, D: int, n_steps: int):
+def _ref_losses(ra: RefMI, rb: RefMI, D: int, n_steps: int, eps: float = 1e-5):
     """float64 reference straight from the statement, by type."""
     B = next(iter(ra.blocks.values())).shape[0]
     npix = float(np.prod(ra.spatial()))
@@ -1333,7 +1334,7 @@ def _ref_losses(ra: RefMI, rb: RefMI, D: int, n_steps: int):
             n2 = (y**2).reshape(y.shape[: 2 + D] + (-1,)).sum(axis=-1).reshape(y.shape[: 2 + D] + (1,) * k)
         else:
             n2 = y**2
-        normalized += (d2 / (n2 + 1e-5)).reshape(B, -1).sum(axis=1) / npix
+        normalized += (d2 / (n2 + eps)).reshape(B, -1).sum(axis=1) / npix
     return per_entry, per_step, normalized
 
 
@@ -1349,7 +1350,8 @@ def _loss_check(op, regs, refs, D, bump, fail, guarded):
     a, b = regs[op["a"]], regs[op["b"]]
     ra, rb = refs[op["a"]], refs[op["b"]]
     which, reduce, n_steps = op["which"], op["reduce"], op["n_steps"]
-    per_entry, per_step, normalized = _ref_losses(ra, rb, D, n_steps)
+    eps = op.get("eps")
+    per_entry, per_step, normalized = _ref_losses(ra, rb, D, n_steps, 1e-5 if eps is None else eps)
     differ = list(a.keys()) != list(b.keys())
     bump("loss_" + which)
     if differ:
@@ -1360,7 +1362,7 @@ def _loss_check(op, regs, refs, D, bump, fail, guarded):
             return ml.smse_loss(x, y, reduce=reduce)
         if which == "timestep":
             return ml.timestep_smse_loss(x, y, n_steps, reduce=reduce)
-        return ml.normalized_smse_loss(x, y)
+        return ml.normalized_smse_loss(x, y) if eps is None else ml.normalized_smse_loss(x, y, eps=eps)
 
     got = np.asarray(guarded(lambda: call(a, b), "loss"))
     if which == "smse":
